@@ -2,6 +2,7 @@ import PbVerif.Lemmas.BSpline
 import PbVerif.Lemmas.Loess
 import PbVerif.Lemmas.Kernels
 import PbVerif.Lemmas.Kernels2
+import PbVerif.Lemmas.Kernels3
 /-! C05 — no input makes the compiled kernels read or write outside their arrays.
 Each theorem: under the precondition the Python callers establish, for ALL sizes and for ARBITRARY
 outcomes of the floating-point comparisons (so NaN, unsorted or repeated values cannot matter),
@@ -139,6 +140,18 @@ theorem pre_interpInplace_of_guards (o : Oracle) (n tp : Nat) (check : Bool) (hn
       (fillSkipsCall n n (s.1 : Int) (s.2 : Int)).2.1 = (fillSkipsCall n n (s.1 : Int) (s.2 : Int)).2.2 ∧
       2 ≤ (fillSkipsCall n n (s.1 : Int) (s.2 : Int)).2.1 := pre_interpInplace_of_fillSkips' o n tp check hn
 example : fillSkipsCall 9 9 2 6 = ([2, 5], 4, 4) := by decide
+/-- caller lemma, the other caller of `_interp_inplace` — `_averaged_interp` with `_find_peak_segments` (golotvin, dietrich,
+std_distribution, fastchrom, cwt_br, fabc, rubberband): for EVERY Boolean mask the `(start, end)` pairs satisfy
+`0 ≤ start ≤ end ≤ N - 1`, so `x[start:end+1]` and `output[start:end+1]` are unclipped, equally long and non-empty -/
+theorem pre_interpInplace_of_averagedInterp (mask : List Bool) :
+    ∀ p ∈ averagedInterpCalls mask, 0 ≤ p.1 ∧ p.1 ≤ p.2 ∧ p.2 < (mask.length : Int) ∧
+      1 ≤ sliceLen p.1 (p.2 + 1) mask.length ∧ ((sliceLen p.1 (p.2 + 1) mask.length : Nat) : Int) = p.2 + 1 - p.1 := by
+  intro p hp
+  have h1 := averagedInterp_calls_inb mask p hp
+  have h2 := pre_interpInplace_of_averagedInterp' mask p hp
+  exact ⟨h1.1, h1.2.1, h1.2.2, h2.2.1, h2.2.2⟩
+example : averagedInterpCalls [false, false, true, false, true, true, false] = [(0, 2), (2, 4), (5, 6)] ∧
+    averagedInterpCalls [false, false] = [(0, 1)] ∧ averagedInterpCalls [true, true] = [] := by decide
 
 /-- `_loess_solver(AT, b)`: with `AT : m × w` and `len(b) = w` both products are conformable, every element read by
 them is inside its array, and `np.linalg.solve` gets an `m × m` system -/
